@@ -142,6 +142,10 @@ pub struct RefOpts {
     /// not be evaluated) consume the row and the iteration goes on. If false the history ends
     /// at the first error item of any kind.
     pub continue_after_row_errors: bool,
+    /// Pre-flight only: random(n) returns n-1 (the largest value it can draw) and resetRandom
+    /// does nothing. Used to decide, before the real crate is run, whether a program that uses
+    /// random finishes within the budgets; the resulting history is never compared.
+    pub fake_draws: bool,
 }
 
 impl Default for RefOpts {
@@ -151,6 +155,7 @@ impl Default for RefOpts {
             max_steps: 6000,
             draws: None,
             continue_after_row_errors: true,
+            fake_draws: false,
         }
     }
 }
@@ -328,6 +333,9 @@ impl<'a> Interp<'a> {
             }
             Expr::Random(x) => {
                 let bound = self.eval(x, blind)?;
+                if self.opts.fake_draws {
+                    return if bound < 2 { Err(RefErr::RandomEmpty(bound)) } else { Ok(bound - 1) };
+                }
                 let Some(log) = &self.opts.draws else {
                     return Err(RefErr::NotImplemented("random without draw log".into()));
                 };
@@ -626,6 +634,9 @@ impl<'a> Interp<'a> {
                     self.set_var(n, v);
                 }
                 Item::ResetRandom => {
+                    if self.opts.fake_draws {
+                        continue;
+                    }
                     if let Some(log) = &self.opts.draws {
                         match log.get(self.draw_pos) {
                             Some(Draw::Reset) => self.draw_pos += 1,
